@@ -50,6 +50,13 @@ func objects(x *mon.Ctx, sha1Mode bool) {
 		x.HarnessError("%v", err)
 	}
 	if sha1Mode && !strings.Contains(os.Getenv("GODEBUG"), "x509sha1=1") {
+		for _, p := range strings.Split(os.Getenv("VERIF_PRELUDE"), ",") {
+			if p == "c15.sha1" {
+				// prelude of a mixed-order job of another workload (driver/plan.py _add_mixed) in a configuration
+				// without SHA-1: nothing to execute here (the workload's own jobs run with sha1ok and have a floor)
+				return
+			}
+		}
 		x.HarnessError("workload c15.sha1 must run in configuration sha1ok (GODEBUG=x509sha1=1)")
 	}
 	n := x.Scale(300, 5000)
